@@ -36,8 +36,8 @@ open GoldilocksVerif
 @[inline] def unpackhi_pd (a b : V4) : V4 := ⟨a.l1, b.l1, a.l3, b.l3⟩
 @[inline] def set_epi64x (e3 e2 e1 e0 : BitVec 64) : V4 := ⟨e0, e1, e2, e3⟩
 @[inline] def set1_epi64x (e : BitVec 64) : V4 := ⟨e, e, e, e⟩
-@[inline] def load (r : Region) : V4 := ⟨r 0, r 1, r 2, r 3⟩
-@[inline] def store (r : Region) (v : V4) : Region :=
-  fun j => if j = 0 then v.l0 else if j = 1 then v.l1 else if j = 2 then v.l2 else if j = 3 then v.l3 else r j
+def load (r : Region) : V4 := ⟨r 0, r 1, r 2, r 3⟩
+def store (r : Region) (v : V4) : Region :=
+  ⟨fun j => if j = 0 then v.l0 else if j = 1 then v.l1 else if j = 2 then v.l2 else if j = 3 then v.l3 else r j⟩
 
 end GoldilocksVerif.Avx2
